@@ -1,6 +1,7 @@
 package main
 
 import (
+	"runtime"
 	"context"
 	"fmt"
 	"os"
@@ -44,7 +45,24 @@ func initWorkDir() {
 	workDir = d
 }
 
+// solverSlots bounds the number of solver processes running at once (all obligations, all
+// cubes): a solver's time limit should measure solving, not waiting for a core.
+var solverSlots = make(chan struct{}, maxInt(4, runtime.NumCPU()))
+
+func maxInt(a, b int) int {
+	if a > b {
+		return a
+	}
+	return b
+}
+
 func runSolver(ctx context.Context, sp solverSpec, query string, secs int, tag string) SolveResult {
+	select {
+	case solverSlots <- struct{}{}:
+		defer func() { <-solverSlots }()
+	case <-ctx.Done():
+		return SolveResult{Status: "cancelled", Solver: sp.name}
+	}
 	file := filepath.Join(workDir, fmt.Sprintf("%s.%s.smt2", tag, sp.name))
 	if err := os.WriteFile(file, []byte(query), 0o644); err != nil {
 		return SolveResult{Status: "error", Solver: sp.name, Raw: err.Error()}
@@ -161,4 +179,26 @@ func Solve(vc *VC, o *Obligation, secs int, thorough bool, tag string) SolveResu
 		}
 	}
 	return best
+}
+
+// runSolverMs: z3 with a millisecond time limit (debugging of the splitter only).
+func runSolverMs(ctx context.Context, sp solverSpec, query string, ms int, tag string) SolveResult {
+	file := filepath.Join(workDir, fmt.Sprintf("%s.%s.smt2", tag, sp.name))
+	if err := os.WriteFile(file, []byte(query), 0o644); err != nil {
+		return SolveResult{Status: "error"}
+	}
+	defer os.Remove(file)
+	out, _ := exec.CommandContext(ctx, "z3-new", fmt.Sprintf("-t:%d", ms), file).CombinedOutput()
+	first, rest, _ := strings.Cut(strings.TrimSpace(string(out)), "\n")
+	r := SolveResult{Solver: sp.name, Raw: string(out)}
+	switch strings.TrimSpace(first) {
+	case "unsat":
+		r.Status = "unsat"
+	case "sat":
+		r.Status = "sat"
+		r.Model = strings.TrimSpace(rest)
+	default:
+		r.Status = "timeout"
+	}
+	return r
 }
